@@ -110,7 +110,7 @@ BUDGET = {"quick": 120.0, "thorough": 600.0}
 
 
 def plan(tier, seed):
-    P = 1 if tier == "quick" else 2
+    P = 1 if tier == "quick" else 3
     items = []
     for w in ("zip", "sequence", "traverse"):
         items.append(dict(scenario="zip", params=dict(which=w), bounds=dict(P=P)))
